@@ -4,3 +4,4 @@ import Rp2.Props.C15
 #print axioms Rp2.C15.unit_cost_is_cost_over_balance
 #print axioms Rp2.C15.model_lists_positive_balances
 #print axioms Rp2.C15.model_row_columns
+#print axioms Rp2.C15.model_holder_balance_is_sum
